@@ -77,25 +77,41 @@ Theorem C02_request_capped : forall t key count,
   N.of_nat (length (handle_find_value t key)) <= 8.
 Proof. exact requests_capped. Qed.
 
-(* Manager-level reply rule (model only - correspondence pending the network hooks):
+(* Manager-level reply rule (DhtNetworkManager::find_closest_nodes_local + filter_response_nodes):
    over everything the node knows (connected peers, then table entries) there is one entry
    per DHT key, the connected one winning; the reply is the nearest [cap] of those that are
-   neither the node itself nor the requester: ascending, duplicate-free, at most cap. *)
+   not the node itself, with the requester dropped after the cut: ascending, duplicate-free,
+   at most cap, at most one slot short (and only when the requester was among the nearest
+   cap), and nobody that may be named and is nearer than a named peer is left out.  The
+   replies of real nodes are evaluated against [reply_nodes] by harness c02net. *)
 Theorem C02_reply : forall is_self requester key cap connected from_table,
   let known := dedupe_ids (connected ++ from_table) in
+  let others := filter (fun x => negb (is_self x)) known in
+  let top := firstn (N.to_nat cap) (sort_by_dist key others) in
   let elig := filter (eligible is_self requester) known in
   let res := reply_nodes is_self requester key cap connected from_table in
   NoDup (ids known) /\
   (forall x, In x (connected ++ from_table) -> exists y, In y known /\ n_id y = n_id x) /\
   (forall x, In x connected -> NoDup (ids connected) -> In x known) /\
-  res = firstn (N.to_nat cap) (sort_by_dist key elig) /\
-  N.of_nat (length res) = N.min cap (N.of_nat (length elig)) /\
+  res = filter (fun x => negb (n_id x =? requester)) top /\
   N.of_nat (length res) <= cap /\
+  N.min cap (N.of_nat (length others)) <= N.of_nat (length res) + 1 /\
+  (~ In requester (ids top) -> res = top /\ N.of_nat (length res) = N.min cap (N.of_nat (length others))) /\
   StronglySorted (dlt key) res /\
   NoDup (ids res) /\
   (forall x, In x res -> In x (connected ++ from_table) /\ is_self x = false /\ n_id x <> requester) /\
   (forall x y, In x res -> In y elig -> ~ In y res -> dlt key x y).
 Proof. exact reply_rule. Qed.
+
+(* What the evaluated check of a reply seen on the wire establishes: every named peer is known to
+   the replier afterwards, and the reply IS [reply_nodes] of a knowledge that contains everything
+   the replier knew before the lookup and otherwise only peers it names (or the requester). *)
+Theorem C02_reply_check : forall selfks req key cap before after reply,
+  check_rcase (selfks, req, key, cap, before, after, reply) = true ->
+  (forall x, In x reply -> In x after) /\
+  exists k, (k = reply ++ before \/ (k = req :: reply ++ before /\ In req after)) /\
+            reply = reply_nodes (is_self_in selfks) (n_id req) key cap k [].
+Proof. exact check_rcase_sound. Qed.
 
 (* The tie between the byte-level Rust code and the numbers of the model. *)
 (* [u8;32]::cmp on distances = comparison of the big-endian integers *)
@@ -166,5 +182,18 @@ Proof. vm_compute. split; reflexivity. Qed.
 Example C02_example_reply :
   (* peer with DHT key 9 is known twice (connected under payload 100, table under 200); requester has key 5 *)
   reply_nodes (fun x => n_id x =? 1) 5 8 2 [nd 9 100; nd 5 101] [nd 9 200; nd 12 201; nd 1 202; nd 10 203]
-  = [nd 9 100; nd 10 203].
-Proof. vm_compute. reflexivity. Qed.
+  = [nd 9 100; nd 10 203] /\
+  (* the requester (key 10) is among the nearest two: it is dropped after the cut, the reply is one short *)
+  reply_nodes (fun x => n_id x =? 1) 10 8 2 [nd 9 100; nd 5 101] [nd 9 200; nd 12 201; nd 1 202; nd 10 203]
+  = [nd 9 100].
+Proof. vm_compute. split; reflexivity. Qed.
+
+(* the check of a wire reply: accepted although the replier learnt of peer 12 only during the lookup,
+   accepted one short when the requester took a slot, refused when a known nearer peer is left out *)
+Example C02_example_reply_check :
+  check_rcase ([1], nd 5 101, 8, 2, [nd 9 100; nd 5 101], [nd 9 100; nd 5 101; nd 12 201], [nd 9 100; nd 12 201]) = true /\
+  check_rcase ([1], nd 10 203, 8, 2, [nd 9 100; nd 12 201], [nd 9 100; nd 12 201; nd 10 203], [nd 9 100]) = true /\
+  prop_rcase ([1], nd 10 203, 8, 2, [nd 9 100; nd 12 201], [nd 9 100; nd 12 201; nd 10 203], [nd 9 100]) = true /\
+  check_rcase ([1], nd 5 101, 8, 2, [nd 9 100; nd 10 203; nd 12 201], [nd 9 100; nd 10 203; nd 12 201], [nd 9 100; nd 12 201]) = false /\
+  prop_rcase ([1], nd 5 101, 8, 2, [nd 9 100; nd 10 203; nd 12 201], [nd 9 100; nd 10 203; nd 12 201], [nd 9 100; nd 12 201]) = false.
+Proof. vm_compute. repeat split; reflexivity. Qed.
